@@ -97,6 +97,26 @@ Section Store.
     end.
   Definition apply_sops (s : store) (ops : list sop) : store := fold_left apply_sop ops s.
 
+  (** the key and the value a save operation writes ([apply_sop s o = sset (sop_key o) (sop_val o) s]);
+      [sop_hashed]: the kinds that are keyed by the hash of their own content *)
+  Definition sop_key (o : sop) : bytes :=
+    match o with
+    | SBlock c => L_blk ++ H c
+    | SBlockIndex c => L_blkidx ++ H c
+    | STable c => L_tbl ++ H c
+    | SCommit c => L_com ++ H c
+    | STableIndex t _ => L_tblidx ++ H t
+    | STableProfile t _ => L_tblsum ++ H t
+    end.
+  Definition sop_val (o : sop) : bytes :=
+    match o with
+    | SBlock c | SBlockIndex c => compress c
+    | STable c | SCommit c => c
+    | STableIndex _ c | STableProfile _ c => c
+    end.
+  Definition sop_hashed (o : sop) : bool :=
+    match o with STableIndex _ _ | STableProfile _ _ => false | _ => true end.
+
   (** "a stored object never disagrees with its identifier" *)
   Definition entry_ok (kv : bytes * bytes) : Prop :=
     let (k, v) := kv in
